@@ -247,7 +247,7 @@ def handle (op : String) (args : List String) : String :=
       else if op == "cflat" then
         match expand cfg sch order with
         | .error e => showErr e
-        | .ok s' => dumpSet (compileSet cfg s' (s'.mods.map (·.name)))
+        | .ok s' => dumpSet (compileSet cfg s' order)
       else if op == "cexpand" then
         match expand cfg sch order with
         | .error e => showErr e
